@@ -239,6 +239,8 @@ struct WorkerShm {
   int nsamp;
   char samp[MAXSAMP][1024];
   volatile uint64_t nhash;  // number of hashes appended to this worker's segment
+  volatile uint64_t cur_item, wants_in_item;  // resume information after a crash
+  volatile int item_active;
 };
 struct GlobalShm {
   volatile uint64_t next_item;
@@ -304,7 +306,14 @@ struct Ctx {
   WorkerShm& my() { return w[me]; }
 
   // ---- called by check code (in workers or in the parent) ----
-  bool want(const std::string& id) const { return args.replay_id.empty() || args.replay_id == id; }
+  // called exactly once per enumerated case, in a deterministic order (this is what makes resuming an
+  // item after a crash possible: the first `skip` cases of the item are not executed again)
+  uint64_t skip = 0;
+  bool want(const std::string& id) {
+    my().wants_in_item++;
+    if (skip > 0) { skip--; return false; }
+    return args.replay_id.empty() || args.replay_id == id;
+  }
   void begin_case(const std::string& id) {
     WorkerShm& s = my();
     strncpy(s.cur, id.c_str(), sizeof s.cur - 1);
@@ -348,17 +357,28 @@ struct Ctx {
     int nproc = (int)std::min<uint64_t>(nw, n);
     if (args.replaying()) nproc = std::min(nproc, 4);
     std::vector<pid_t> pid(nproc, 0);
-    auto spawn = [&](int k) {
+    auto spawn = [&](int k, bool resume) {
       fflush(stdout); fflush(stderr);
+      uint64_t r_item = w[k].cur_item, r_skip = w[k].wants_in_item;
       pid_t p = fork();
       if (p < 0) machinery_error("fork failed");
       if (p == 0) {
         me = k;
+        if (resume) {  // finish the item in which the previous incarnation of this worker crashed
+          my().cur_item = r_item; my().wants_in_item = 0; my().item_active = 1;
+          skip = r_skip;
+          fn(r_item);
+          skip = 0;
+          my().item_active = 0;
+          __sync_fetch_and_add(&g->items_done, 1);
+        }
         for (;;) {
           if (args.past_deadline()) { g->deadline_hit = 1; break; }
           uint64_t it = __sync_fetch_and_add(&g->next_item, 1);
           if (it >= n) break;
+          my().cur_item = it; my().wants_in_item = 0; my().item_active = 1;
           fn(it);
+          my().item_active = 0;
           __sync_fetch_and_add(&g->items_done, 1);
         }
         fflush(stdout);
@@ -366,7 +386,7 @@ struct Ctx {
       }
       pid[k] = p;
     };
-    for (int k = 0; k < nproc; ++k) spawn(k);
+    for (int k = 0; k < nproc; ++k) spawn(k, false);
     int alive = nproc;
     while (alive > 0) {
       int st = 0;
@@ -389,7 +409,7 @@ struct Ctx {
         me = save;
         parent_restarts++;
         if (parent_restarts > 2000) machinery_error("too many crashing cases");
-        spawn(k);  // continue with the remaining items
+        spawn(k, true);  // finish the interrupted item (skipping what was already executed), then continue
       } else {
         alive--;
       }
